@@ -95,7 +95,15 @@ def struct_eq(ev, st, a, b, depth=0):
             a, b = b, a
         return ("app", "Eq", (a, b))
     x, y = sorted((a, b), key=repr)
+    if is_scalar_leaf(x) and is_scalar_leaf(y):
+        return ("app", "Eq", (x, y))      # same atom as the `==` operator on two integers
     return ("eq", x, y)
+
+
+def is_scalar_leaf(t):
+    from mireval import int_bits
+    ty = term_type(t)
+    return bool(ty) and int_bits(ty)[0] is not None
 
 
 def conj(atoms):
@@ -158,7 +166,9 @@ class Models:
         R(r"as core::cmp::PartialEq(<.*>)?>::eq$|^core::cmp::PartialEq::eq$|impl core::cmp::PartialEq<.*> for .*>::eq$", m_eq,
           "PartialEq::eq on derived impls, Option, Cow, Vec, slices and references is structural equality (std docs: derive(PartialEq); impl PartialEq for Option/[T]/&A)")
         R(r"as core::cmp::PartialEq(<.*>)?>::ne$|^core::cmp::PartialEq::ne$|impl core::cmp::PartialEq<.*> for .*>::ne$", m_ne, "PartialEq::ne is !eq")
-        R(r"as core::ops::try_trait::Try>::branch$", m_try_branch, "Result::branch: Ok(v) => Continue(v), Err(e) => Break(Err(e)) (core::ops::Try for Result)")
+        R(r"as core::ops::try_trait::Try>::branch$", m_try_branch, "Try::branch for Result / Option: Ok(v)/Some(v) => Continue(v), Err(e) => Break(Err(e)), None => Break(None)")
+        R(r"^core::bool::<impl bool>::(then|then_some)$", m_bool_then, "bool::then(f) / then_some(v): Some(f()) / Some(v) when true, None when false")
+        R(r"impl core::ops::range::Range<Idx>>::contains$|^core::ops::range::Range::<Idx>::contains$", m_range_contains, "Range::contains(&x): start <= x && x < end")
         R(r"as core::ops::try_trait::FromResidual<.*>>::from_residual$", m_from_residual, "Result::from_residual(Err(e)) = Err(From::from(e))")
         R(r"^<alloc::borrow::Cow<'_, B> as core::ops::deref::Deref>::deref$", m_cow_deref, "Cow::deref borrows the contained data unchanged")
         R(r"^<alloc::vec::Vec<T, A> as core::ops::deref::Deref(Mut)?>::deref(_mut)?$|^alloc::vec::Vec::<T, A>::as_(mut_)?slice$", m_vec_deref, "Vec derefs to the slice of its elements")
@@ -175,6 +185,7 @@ class Models:
         R(r"^core::option::Option::<T>::(map_or|map|and_then|is_some_and|is_none_or|map_or_else)$", m_opt_comb, "Option combinators: apply the closure to the contained value (Some) or take the default (None)")
         R(r"^core::result::Result::<T, E>::(map|map_err)$", m_res_comb, "Result::map / map_err apply the closure to the Ok / Err payload")
         R(r"^core::option::Option::<T>::ok_or$", lambda ci: (ok(ci.ev, ci.args[0][4][0]) if ci.args[0][3] == "Some" else err(ci.ev, ci.args[1])) if ci.args[0][0] == "adt" else None, "Option::ok_or")
+        R(r"^alloc::slice::<impl \[T\]>::to_vec$", lambda ci: ("app", "to_vec", (ci.deref(ci.args[0]),)), "slice::to_vec copies the slice into a Vec")
         R(r"^core::slice::<impl \[T\]>::first$", m_first, "slice::first: Some(&s[0]) unless the slice is empty")
         R(r"^core::slice::<impl \[T\]>::get$", m_slice_get, "slice::get(i): Some(&s[i]) iff i < len")
         R(r"^core::result::Result::<T, E>::ok$", m_result_ok, "Result::ok: Ok(v) => Some(v), Err(_) => None")
@@ -188,12 +199,17 @@ class Models:
         R(r"^core::mem::take$", m_mem_take, "mem::take replaces with Default::default() and returns the old value")
         R(r"^core::slice::<impl \[T\]>::iter$", lambda ci: ("iter", "slice", ci.deref(ci.args[0])), "slice::iter yields the elements in order")
         R(r"^core::slice::<impl \[T\]>::chunks$", lambda ci: ("iter", "chunks", ci.deref(ci.args[0]), ci.args[1]), "slice::chunks(n): consecutive non-overlapping chunks of n elements, last one shorter")
+        R(r"^core::iter::traits::iterator::Iterator::(copied|cloned)$", lambda ci: ("iter", "copied", ci.args[0]), "Iterator::copied / cloned: the same items by value")
+        R(r"^core::slice::<impl \[T\]>::chunks_exact$", lambda ci: ("iter", "chunks_exact", ci.deref(ci.args[0]), ci.args[1]), "slice::chunks_exact(n): the chunks of exactly n elements (a shorter tail is left out)")
+        R(r"impl core::convert::TryFrom<usize> for u(8|16|32)>::try_from$|impl core::convert::TryFrom<u(16|32|64)> for u(8|16|32)>::try_from$", m_try_from, "TryFrom between unsigned ints: Ok(value) iff it fits the target type")
         R(r"^core::iter::traits::iterator::Iterator::enumerate$", lambda ci: ("iter", "enumerate", ci.args[0]), "Iterator::enumerate pairs items with 0,1,2,…")
         R(r"^core::iter::traits::iterator::Iterator::map$", lambda ci: ("iter", "map", ci.args[0], ci.args[1]), "Iterator::map applies f to each item")
         R(r"^core::iter::sources::once::once$", lambda ci: ("iter", "once", ci.args[0]), "iter::once yields exactly one item")
         R(r"^core::iter::traits::iterator::Iterator::collect$", lambda ci: ("app", "collect:" + ci._sub(ci.dest["ty"]), (ci.args[0],)), "Iterator::collect::<Vec<_>> gathers all items in order")
         R(r"^core::iter::traits::iterator::Iterator::sum$", m_sum, "Iterator::sum adds all items in the result type (overflow panics in debug builds: A4)")
         R(r"as core::iter::traits::iterator::Iterator>::fold$|^core::iter::traits::iterator::Iterator::fold$", lambda ci: ("app", "fold", (ci.args[0], ci.args[1], ci.args[2])), "Iterator::fold(init, f)")
+        R(r"^core::slice::<impl \[T\]>::iter_mut$", lambda ci: ("iter", "slice_mut", ci.deref(ci.args[0])), "slice::iter_mut yields &mut to the elements in order")
+        R(r"^core::iter::traits::iterator::Iterator::for_each$|as core::iter::traits::iterator::Iterator>::for_each$", m_for_each, "Iterator::for_each calls the closure on every item")
         R(r"as core::iter::traits::collect::IntoIterator>::into_iter$|^core::iter::traits::collect::IntoIterator::into_iter$", m_into_iter, "IntoIterator for iterators is identity; for &Vec / &mut Vec it is slice iteration")
         R(r"as core::iter::traits::iterator::Iterator>::next$|^core::iter::traits::iterator::Iterator::next$", m_iter_next, "Iterator::next: Some(item) or None")
         R(r"^core::clone::Clone::clone$", lambda ci: ci.deref(ci.args[0]), "Clone::clone yields an equal value")
@@ -202,7 +218,7 @@ class Models:
         R(r"^core::num::<impl u(\d+|size)>::(div_ceil|next_multiple_of|saturating_add|saturating_sub|min|max|pow|checked_add|checked_mul|is_multiple_of)$", lambda ci: ("app", ci.name.split("::")[-1], tuple(ci.args)), "integer helper (uninterpreted, canonicalised by A7)")
         R(r"^core::num::<impl u(16|32|64)>::to_(be|le)_bytes$", m_to_bytes, "uN::to_be_bytes / to_le_bytes: the value's bytes, most / least significant first")
         R(r"^core::num::<impl u(16|32|64)>::from_(be|le)_bytes$", lambda ci: None, "from_*_bytes (unmodelled)")
-        R(r"^core::convert::num::<impl core::convert::From<u\d+> for [ui](\d+|size)>::from$", lambda ci: mk_int(ci.args[0][1], ci.dest["ty"]) if ci.args[0][0] == "int" else ("app", "cast:" + ci.dest["ty"], (ci.args[0],)), "lossless integer widening")
+        R(r"^core::convert::num::<impl core::convert::From<u\d+> for [ui](\d+|size)>::from$", m_widen, "lossless integer widening")
         R(r"^<&?u8 as core::ops::bit::(Shr|Shl|BitAnd|BitOr|BitXor)<.*>>::\w+$", m_ref_binop, "operators on &u8 forward to the u8 operator")
         R(r"^core::time::Duration::from_millis$", lambda ci: dur(ci.args[0], 1), "Duration::from_millis")
         R(r"^core::time::Duration::from_secs$", lambda ci: dur(ci.args[0], 1000), "Duration::from_secs")
@@ -221,13 +237,22 @@ class Models:
         R(r"^lazy_static::lazy::Lazy::<T>::get$", lambda ci: ("ref", ("val", ("app", "lazy", (ci.args[1],)), ()), False), "lazy_static: the value produced once by the initialiser")
         R(r"^regex::regex::bytes::Regex::new$", lambda ci: ok(ci.ev, ("app", "regex", (ci.args[0],))), "Regex::new (literal validated by A6)")
         R(r"^regex::regex::bytes::Regex::captures$", lambda ci: ("app", "captures", (ci.deref(ci.args[0]), ci.deref(ci.args[1]))), "Regex::captures: Some(caps) iff the regex matches")
-        R(r"^regex::regex::bytes::Captures::<'h>::name$", lambda ci: ("app", "group", (ci.deref(ci.args[0]), ci.deref(ci.args[1]))), "Captures::name: the named group's match, if it participated")
+        R(r"^regex::regex::bytes::Captures::<'h>::name$", lambda ci: ("app", "group", (deref_all(ci, ci.args[0]), deref_all(ci, ci.args[1]))), "Captures::name: the named group's match, if it participated")
         R(r"^regex::regex::bytes::Match::<'h>::as_bytes$", lambda ci: ("ref", ("val", ("app", "match_bytes", (ci.deref(ci.args[0]) if ci.args[0][0] == "ref" else ci.args[0],)), ()), False), "Match::as_bytes: the matched bytes")
         R(r"^core::str::converts::from_utf8$", lambda ci: ("app", "from_utf8", (ci.deref(ci.args[0]),)), "str::from_utf8")
         R(r"^num_traits::Num::from_str_radix$", lambda ci: ("app", "from_str_radix:" + ci.orig_targs()[0], (ci.deref(ci.args[0]) if ci.args[0][0] == "ref" else ci.args[0], ci.args[1])), "Num::from_str_radix(s, radix) for primitive ints = <int>::from_str_radix")
         R(r"^core::slice::<impl \[T\]>::fill$", m_fill, "slice::fill sets every element of the slice to the value")
         R(r"^core::panicking::\w+$|^std::rt::begin_panic\w*$", lambda ci: ("panic!", ci.name), "panic entry points diverge")
         R(r"^core::str::<impl str>::repeat$|^alloc::str::<impl str>::repeat$", m_benign, "str::repeat (pure)")
+
+
+def deref_all(ci, v):
+    """the value behind any number of concrete references (`&&str` -> str)"""
+    while v[0] == "ref":
+        v = ci.ev.load(ci.st, v[1])
+    if v[0] == "proj" and v[2] == ("deref",) and v[1][0] == "ref":
+        return deref_all(ci, v[1])
+    return v
 
 
 def dur(x, ms_per_unit):
@@ -272,14 +297,20 @@ def m_le(ci):
 def m_try_branch(ci):
     ev = ci.ev
     x = ci.args[0]
+    is_opt = "option::Option" in ci.name
     if x[0] == "adt":
-        if x[3] == "Ok":
+        if x[3] in ("Ok", "Some"):
             return ev.mk_adt(CFLOW, "Continue", (x[4][0],))
+        if x[3] == "None":
+            return ev.mk_adt(CFLOW, "Break", (none(ev),))
         return ev.mk_adt(CFLOW, "Break", (err(ev, x[4][0]),))
+    if is_opt:
+        d0 = ("discr", x)
+        return ("fork", [([(d0, 1)], ev.mk_adt(CFLOW, "Continue", (("unwrap", x),))), ([(d0, 0)], ev.mk_adt(CFLOW, "Break", (none(ev),)))])
     d = ("discr", x)
     dt = ci.dest_ty()
     okty = dt["args"][1]["s"] if dt.get("k") == "adt" and len(dt.get("args", [])) == 2 else "?"
-    okv = ("proj", ("proj", x, ("downcast", 0, "Ok")), ("field", 0, okty))
+    okv = ("unwrap", x)
     erv = ("proj", ("proj", x, ("downcast", 1, "Err")), ("field", 0, "?"))
     return ("fork", [
         ([(d, 0)], ev.mk_adt(CFLOW, "Continue", (okv,))),
@@ -290,6 +321,8 @@ def m_try_branch(ci):
 def m_from_residual(ci):
     ev = ci.ev
     x = ci.args[0]
+    if "option::Option" in ci.name:
+        return none(ev)      # impl FromResidual<Option<Infallible>> for Option<T>: None
     targs = ci.targs()
     e = x[4][0] if x[0] == "adt" else ("proj", ("proj", x, ("downcast", 1, "Err")), ("field", 0, "?"))
     # impl<T, E, F: From<E>> FromResidual<Result<Infallible, E>> for Result<T, F>: generic args are [T, E, F]
@@ -485,12 +518,33 @@ def m_opt_comb(ci):
         return None
     if x[0] == "adt":
         return on_some(x[4][0]) if x[3] == "Some" else on_none()
-    sv = on_some(("unwrap", x))
-    nv = on_none()
-    if sv is None or nv is None:
-        return None
     d = ("discr", x)
-    return ("fork", [([(d, 1)], sv), ([(d, 0)], nv)])
+
+    def lazy_some(ci2):
+        f = ci.args[2] if which in ("map_or", "map_or_else") else ci.args[1]
+        r = apply_closure(ci2, f, [("unwrap", x)])
+        if r is None:
+            return None
+        return some(ci2.ev, r) if which == "map" else r
+
+    def lazy_none(ci2):
+        if which == "map_or_else":
+            return apply_closure(ci2, ci.args[1], [])
+        return on_none()
+    return ("fork", [([(d, 1)], lazy_some), ([(d, 0)], lazy_none)])
+
+
+def m_try_from(ci):
+    m = re.search(r"for u(8|16|32)>::try_from$", ci.name)
+    bits = int(m.group(1))
+    ty = "u%d" % bits
+    x = ci.args[0]
+    mx = (1 << bits) - 1
+    if x[0] == "int":
+        return ok(ci.ev, mk_int(x[1], ty)) if x[1] <= mx else err(ci.ev, ("sym", "TryFromIntError", "core::num::error::TryFromIntError"))
+    xt = term_type(x) or "usize"
+    c = ("app", "Gt", (x, mk_int(mx, xt)))
+    return ("fork", [([(c, 0)], ok(ci.ev, ("app", "cast:" + ty, (x,)))), ([(c, 1)], err(ci.ev, ("sym", "TryFromIntError", "core::num::error::TryFromIntError")))])
 
 
 def m_res_comb(ci):
@@ -498,7 +552,19 @@ def m_res_comb(ci):
     x = ci.args[0]
     ev = ci.ev
     if x[0] != "adt":
-        return None
+        # symbolic Result: both variants, the closure applied to the mapped one
+        okv = ("unwrap", x)
+        erv = ("proj", ("proj", x, ("downcast", 1, "Err")), ("field", 0, "?"))
+        d = ("discr", x)
+        if which == "map":
+            r = apply_closure(ci, ci.args[1], [okv])
+            if r is None:
+                return None
+            return ("fork", [([(d, 0)], ok(ev, r)), ([(d, 1)], err(ev, erv))])
+        r = apply_closure(ci, ci.args[1], [erv])
+        if r is None:
+            return None
+        return ("fork", [([(d, 0)], ok(ev, okv)), ([(d, 1)], err(ev, r))])
     if which == "map":
         if x[3] == "Ok":
             r = apply_closure(ci, ci.args[1], [x[4][0]])
@@ -508,6 +574,40 @@ def m_res_comb(ci):
         r = apply_closure(ci, ci.args[1], [x[4][0]])
         return err(ev, r) if r is not None else None
     return x
+
+
+def m_bool_then(ci):
+    b = ci.args[0]
+    ev = ci.ev
+    which = ci.name.split("::")[-1]
+
+    def val():
+        if which == "then_some":
+            return ci.args[1]
+        return apply_closure(ci, ci.args[1], [])
+    if b[0] == "int":
+        if not b[1]:
+            return none(ev)
+        v = val()
+        return some(ev, v) if v is not None else None
+    if which == "then_some":
+        return ("fork", [([(b, 1)], some(ev, ci.args[1])), ([(b, 0)], none(ev))])
+
+    def on_true(ci2):
+        v = apply_closure(ci2, ci.args[1], [])
+        return some(ci2.ev, v) if v is not None else None
+    return ("fork", [([(b, 1)], on_true), ([(b, 0)], none(ev))])
+
+
+def m_range_contains(ci):
+    r = ci.deref(ci.args[0]) if ci.args[0][0] == "ref" else ci.args[0]
+    x = ci.deref(ci.args[1]) if ci.args[1][0] == "ref" else ci.args[1]
+    if r[0] == "adt" and len(r[4]) == 2:
+        lo, hi = r[4]
+        a = ci.ev.binop(ci.st, "Ge", x, lo, "?")
+        b = ci.ev.binop(ci.st, "Lt", x, hi, "?")
+        return conj([a, b])
+    return None
 
 
 def m_copied(ci):
@@ -633,6 +733,30 @@ def m_mem_take(ci):
     raise Unsupported("mem::take of %s" % ty)
 
 
+def m_for_each(ci):
+    it, f = ci.args[0], ci.args[1]
+    if it[0] == "iter" and it[1] == "slice_mut":
+        sl = it[2]
+        cell = ("sym", "for_each:elem", "u8")
+        old = ("proj", ("item", it, ci.w.split(" ")[0]), ("deref",))
+        n0 = len(ci.st.trace)
+        r = apply_closure(ci, f, [("ref", ("val", old, ()), True)])
+        if r is None:
+            return None
+        new = ci.st.trace[n0:]
+        stores = [e for e in new if e[0] == "store"]
+        if len(stores) == 1 and len(new) == 1 and stores[0][1] == old and not stores[0][2]:
+            v = stores[0][3]
+            from mireval import mentions
+            if not mentions(v, {old}):
+                # every element receives the same value, independent of the old one: slice::fill
+                ci.st.trace = ci.st.trace[:n0]
+                ci.st.emit(("fill", sl, v, ci.w))
+                return UNIT
+        return UNIT
+    return None
+
+
 def m_into_iter(ci):
     x = ci.args[0]
     if x[0] == "iter":
@@ -656,7 +780,7 @@ def m_iter_next(ci):
         item = ("tuple", (("item_index", it), ("item", it[2], ci.w.split(" ")[0])))
     extra = []
     inner = it[2] if (it[0] == "iter" and it[1] == "enumerate") else it
-    if inner[0] == "iter" and inner[1] == "chunks" and inner[3][0] == "int":
+    if inner[0] == "iter" and inner[1] in ("chunks", "chunks_exact") and inner[3][0] == "int":
         # slice::chunks(n): every chunk has between 1 and n elements (core::slice::chunks docs)
         ch = ("item", inner, ci.w.split(" ")[0])
         ln = ("len", ("proj", ch, ("deref",)))
@@ -679,6 +803,11 @@ def concrete_items(ci, it):
         if v[0] == "bytes":
             return [("ref", ("val", mk_int(b, "u8"), ()), False) for b in v[1]]
         return None
+    if it[0] == "iter" and it[1] == "copied":
+        base = concrete_items(ci, it[2])
+        if base is None:
+            return None
+        return [ci.ev.load(ci.st, x[1]) if x[0] == "ref" else x for x in base]
     if it[0] == "iter" and it[1] == "map":
         base = concrete_items(ci, it[2])
         if base is None:
@@ -703,10 +832,39 @@ def apply_closure(ci, f, args):
         fj = ev.fnrefs[f[1]]
         fn = ev.prog.fns.get((fj.get("resolved") or fj)["path"])
         argv = list(args)
+        if fn is None:
+            # an external function item used as a closure (e.g. `fold(0, u8::wrapping_add)`): apply its model
+            class _FCI:
+                pass
+            c2 = _FCI()
+            c2.ev, c2.st, c2.fnj = ev, ci.st, fj
+            c2.name = (fj.get("resolved") or fj)["name"]
+            c2.orig_name = fj["name"]
+            c2.args = list(args)
+            c2.dest = {"ty": "?", "proj": [], "local": 0}
+            c2.w = "?"
+            c2.act = None
+            c2.targs = lambda: [a["s"] for a in (fj.get("resolved") or fj)["args"]]
+            c2.orig_targs = lambda: [a["s"] for a in fj["args"]]
+            c2._sub = lambda s_: s_
+            c2.deref = lambda v: ev.load(ci.st, v[1]) if v[0] == "ref" else ("proj", v, ("deref",))
+            try:
+                r = ev.models.call(c2)
+            except Exception:
+                return None
+            if isinstance(r, tuple) and r and r[0] in ("fork", "panic!", "inline", "suspend"):
+                return None
+            return r
     else:
         return None
     if fn is None:
         return None
+    if f[0] == "fn" and ev.no_inline(fn):
+        # a protocol-level unit used as a function value (e.g. `.map(Message::from)`): an opaque call, like a direct one
+        rv = ci.st.new_sym("ret:" + fn["name"].split("::")[-1], fn.get("output", {}).get("s", "?"))
+        loaded = tuple(ev.load(ci.st, a[1]) if a[0] == "ref" else None for a in args)
+        ci.st.emit(("call", fn["name"], tuple(args), rv, getattr(ci, "w", "?"), None, loaded))
+        return rv
     sub = Evaluator(ev.prog, ev.models, ev.log_on, {}, ev.no_inline)
     sub.fnrefs = ev.fnrefs
     st2 = ci.st.fork()
@@ -716,10 +874,26 @@ def apply_closure(ci, f, args):
     body = fn["body"]
     if f[0] == "closure" and body["locals"][1]["ty"]["k"] == "ref":
         argv[0] = ("ref", ("val", f, ()), False)
-    paths = [p for p in sub.run_body(fn, body, argv, st=st2) if p.kind == "return"]
-    if len(paths) != 1:
+    allp = sub.run_body(fn, body, argv, st=st2)
+    paths = [p for p in allp if p.kind == "return"]
+    if len(paths) != 1 or len(allp) != 1:
         return None
-    return sub.detach(paths[0].state, paths[0].value)
+    ps = paths[0].state
+    val = sub.detach(ps, paths[0].value)
+    # the closure ran on a copy of the caller's state: adopt what it did (writes through captured references,
+    # facts learned, effects emitted), so that side-effecting closures such as `cond.then(|| { self.x = ..; .. })` are not lost
+    st = ci.st
+    for fid in list(st.frames.keys()):
+        if fid in ps.frames:
+            st.frames[fid] = ps.frames[fid]
+    st.heap = ps.heap
+    st.cons = ps.cons
+    st.trace = st.trace + ps.trace
+    st.fresh = max(st.fresh, ps.fresh)
+    st.next_fid = max(st.next_fid, ps.next_fid)
+    for k_, v_ in ps.aux.items():
+        st.aux[k_] = v_
+    return val
 
 
 def m_sum(ci):
@@ -738,6 +912,13 @@ def m_sum(ci):
         return mk_int(tot, ty)
     ci.st.emit(("sum", ty, ci.args[0], ci.w))
     return ("app", "sum:" + ty, (ci.args[0],))
+
+
+def m_widen(ci):
+    m = re.search(r"for ([ui](?:\d+|size))>::from$", ci.name)
+    ty = m.group(1) if m else ci.dest["ty"]
+    x = ci.args[0]
+    return mk_int(x[1], ty) if x[0] == "int" else ("app", "cast:" + ty, (x,))
 
 
 def m_to_bytes(ci):
